@@ -592,3 +592,79 @@ def files_of(wire):
             out.append(unhex(v).decode("utf8") if k == "H" else open(v, "rb").read().decode("utf8"))
         return out
     return [text_of(wire)]
+
+
+# ------------------------------------------------------------------------------------------ attributes
+# Directed family: conditional-compilation attributes in every order and position (dangling / repeated /
+# misordered `else`, `elsif`), and the other attributes with odd arguments.  What a file looks like while the
+# `#[ifdef(X)]` line above an `#[else]` is being edited away.
+
+COND_ATTRS = ["#[ifdef(X)]", "#[ifndef(X)]", "#[elsif(Y)]", "#[else]", "#[else]\n#[else]", "#[else]\n#[elsif(Y)]",
+              "#[ifdef(X)]\n#[else]", "#[elsif(X)]\n#[ifdef(Y)]", "#[ifdef(X)]\n#[ifdef(Y)]", "#[ifndef(X)]\n#[elsif(Y)]\n#[else]",
+              "#[elsif(Y)]\n#[elsif(Z)]", "#[else]\n#[ifdef(X)]"]
+ODD_ATTRS = ["#[sv(\"\")]", "#[sv(\"a\\\"b\\\\\")]", "#[sv(\"keep\")]\n#[sv(\"keep\")]", "#[allow(unused_variable)]", "#[allow(nothing)]",
+             "#[allow(missing_port, unused_variable)]", "#[fmt(skip)]", "#[fmt(compact)]", "#[fmt(zzz)]", "#[test(t)]", "#[test(t, A)]",
+             "#[enum_encoding(onehot)]", "#[enum_encoding(nothing)]", "#[enum_member_prefix(p)]", "#[cond_type(unique)]", "#[cond_type(x)]",
+             "#[align(number)]", "#[align(number, identifier)]", "#[align(zzz)]", "#[ifdef(X, Y)]", "#[else(X)]", "#[elsif]", "#[ifdef]",
+             "#[unknown]", "#[unknown(1)]", "#[sv(x)]", "#[allow(\"s\")]", "#[expand(modport)]", "#[expand(zzz)]"]
+
+# (name, text with {A} before the first item, {B} before the second/last item)
+ATTR_POSITIONS = [
+    ("top", "{A}module A {{\n}}\n{B}module B {{\n}}\n"),
+    ("module-body", "module A {{\n{A}    let _a: logic = 1;\n{B}    let _b: logic = 1;\n}}\n"),
+    ("module-body-group", "module A {{\n{A}    {{\n        let _a: logic = 1;\n    }}\n{B}    {{\n        let _b: logic = 1;\n    }}\n}}\n"),
+    ("package-body", "package P {{\n{A}    const X: u32 = 1;\n{B}    const Y: u32 = 2;\n}}\n"),
+    ("interface-body", "interface I {{\n{A}    var a: logic;\n{B}    var b: logic;\n}}\n"),
+    ("port", "module A (\n{A}    a: input logic,\n{B}    b: input logic,\n) {{\n}}\n"),
+    ("param", "module A #(\n{A}    param X: u32 = 1,\n{B}    param Y: u32 = 1,\n) {{\n}}\n"),
+    ("struct-member", "module A {{\n    struct S {{\n{A}        a: logic,\n{B}        b: logic,\n    }}\n}}\n"),
+    ("enum-member", "module A {{\n    enum E {{\n{A}        X,\n{B}        Y,\n    }}\n}}\n"),
+    ("modport-member", "interface I {{\n    var a: logic;\n    var b: logic;\n    modport m {{\n{A}        a: input,\n{B}        b: input,\n    }}\n}}\n"),
+    ("statement", "module A {{\n    var _d: logic;\n    always_comb {{\n{A}        _d = 0;\n{B}        _d = 1;\n    }}\n}}\n"),
+    ("statement-block", "module A {{\n    var _d: logic;\n    always_comb {{\n        _d = 0;\n{A}        block {{\n            _d = 1;\n        }}\n{B}        block {{\n            _d = 0;\n        }}\n    }}\n}}\n"),
+    ("inst-port", "module B (\n    a: input logic,\n    b: input logic,\n) {{\n}}\nmodule A {{\n    inst u: B (\n{A}        a: 0,\n{B}        b: 0,\n    );\n}}\n"),
+    ("generate", "module A {{\n    if 1 :g {{\n{A}        let _a: logic = 1;\n{B}        let _b: logic = 1;\n    }}\n}}\n"),
+    # inside `{ }` groups and blocks: check_attribute.rs walks only the outer lists, so nothing rejects a dangling
+    # #[else] / #[elsif] here and it reaches the emitter as the FIRST item of a fresh document buffer
+    ("in-module-group", "module A {{\n    {{\n{A}        let _a: logic = 1;\n{B}        let _b: logic = 1;\n    }}\n}}\n"),
+    ("in-guarded-module-group", "module A {{\n    #[ifdef(X)]\n    {{\n{A}        let _a: logic = 1;\n{B}        let _b: logic = 1;\n    }}\n}}\n"),
+    ("in-package-group", "package P {{\n    {{\n{A}        const X: u32 = 1;\n{B}        const Y: u32 = 2;\n    }}\n}}\n"),
+    ("in-interface-group", "interface I {{\n    {{\n{A}        var a: logic;\n{B}        var b: logic;\n    }}\n}}\n"),
+    ("in-top-group", "{{\n{A}    module A {{\n    }}\n{B}    module B {{\n    }}\n}}\n"),
+    ("in-port-group", "module A (\n    {{\n{A}        a: input logic,\n{B}        b: input logic,\n    }},\n) {{\n}}\n"),
+    ("in-param-group", "module A #(\n    {{\n{A}        param X: u32 = 1,\n{B}        param Y: u32 = 1,\n    }},\n) {{\n}}\n"),
+    ("in-struct-group", "module A {{\n    struct S {{\n        {{\n{A}            a: logic,\n{B}            b: logic,\n        }},\n    }}\n}}\n"),
+    ("in-enum-group", "module A {{\n    enum E {{\n        {{\n{A}            X,\n{B}            Y,\n        }},\n    }}\n}}\n"),
+    ("in-modport-group", "interface I {{\n    var a: logic;\n    var b: logic;\n    modport m {{\n        {{\n{A}            a: input,\n{B}            b: input,\n        }},\n    }}\n}}\n"),
+    ("in-inst-port-group", "module B (\n    a: input logic,\n    b: input logic,\n) {{\n}}\nmodule A {{\n    inst u: B (\n        {{\n{A}            a: 0,\n{B}            b: 0,\n        }},\n    );\n}}\n"),
+    ("in-statement-block", "module A {{\n    var _d: logic;\n    always_comb {{\n        _d = 0;\n        block {{\n{A}            _d = 1;\n{B}            _d = 0;\n        }}\n    }}\n}}\n"),
+    ("in-generate-else", "module A {{\n    if 0 :g {{\n    }} else {{\n{A}        let _a: logic = 1;\n{B}        let _b: logic = 1;\n    }}\n}}\n"),
+    ("in-generate-for", "module A {{\n    for i in 0..1 :g {{\n{A}        let _a: logic = 1;\n{B}        let _b: logic = 1;\n    }}\n}}\n"),
+    ("in-unsafe", "module A {{\n    unsafe (cdc) {{\n{A}        let _a: logic = 1;\n{B}        let _b: logic = 1;\n    }}\n}}\n"),
+    ("in-if-statement", "module A {{\n    var _d: logic;\n    always_comb {{\n        if 1 {{\n{A}            _d = 1;\n{B}            _d = 0;\n        }} else {{\n            _d = 0;\n        }}\n    }}\n}}\n"),
+    ("in-function-first", "module A {{\n    function f () -> logic {{\n{A}        let x: logic = 0;\n{B}        return x;\n    }}\n    let _x: logic = f();\n}}\n"),
+    ("function-body", "module A {{\n    function f () -> logic {{\n{A}        return 0;\n    }}\n{B}    let _x: logic = f();\n}}\n"),
+]
+
+
+def _attr_text(pos_text, a, b):
+    def ind(x):
+        return "".join("    " + l + "\n" for l in x.split("\n")) if x else ""
+    return pos_text.format(A=ind(a), B=ind(b))
+
+
+def attribute_programs(rng, tier):
+    """(tag, [text]): every attribute alone in front of the first item and of the last item of every position,
+    plus ordered pairs of conditional attributes (all of them in the thorough tier)."""
+    out = []
+    for pname, ptext in ATTR_POSITIONS:
+        for a in COND_ATTRS + ODD_ATTRS:
+            out.append(("attr:" + pname, [_attr_text(ptext, a, "")]))
+            out.append(("attr:" + pname, [_attr_text(ptext, "", a)]))
+        pairs = [(a, b) for a in COND_ATTRS for b in COND_ATTRS]
+        if tier == "quick":
+            rng.shuffle(pairs)
+            pairs = pairs[:12]
+        for a, b in pairs:
+            out.append(("attr-pair:" + pname, [_attr_text(ptext, a, b)]))
+    return out
